@@ -19,7 +19,9 @@ PROFILES = [
     ('sel', .3, dict(p_incompat=.4, n_steps=(3, 9))),
     ('sel_con', .15, dict(p_incompat=.3, p_constraint=1.0, n_steps=(5, 10))),
     ('dv', .2, dict(p_incompat=.2, n_dv=(1, 3), p_dv_link=.4, n_metric=(0, 2), n_steps=(3, 8))),
-    ('conn', .15, dict(p_incompat=.15, n_conn=(1, 1), n_steps=(2, 5), max_sel=2, max_opts=3, max_side=2, n_dv=(0, 1))),
+    ('conn', .1, dict(p_incompat=.15, n_conn=(1, 1), n_steps=(2, 5), max_sel=2, max_opts=3, max_side=2, n_dv=(0, 1))),
+    # grouping connectors with conditional members: their aggregated degree lives on a node object shared by all graphs
+    ('conn_grp', .05, dict(p_incompat=.1, n_conn=(1, 1), p_grp=.8, p_conn_cond=.8, n_steps=(2, 5), max_sel=2, max_opts=3)),
     ('dup_id', .14, dict(p_incompat=.3, p_dup_id=.7, n_dv=(0, 2), p_multi_choice=.3)),
     # a node that is an option of several choices gets its option id from the first one: options of the other choice
     # can then tie on (decision id, option id)
@@ -161,8 +163,66 @@ def in_process(sp, col, seed_parts):
     except Exception as e:  # noqa
         info = D.exc_info(e)
         col.violation('pickle_exception', sp, {'exc': info}, flags, where={'exc': info['type'], 'site': info['site']})
+    history_stability(sp, b, col, flags, rnd)
     exports(sp, b, col, flags)
     return True
+
+
+def history_stability(sp, b, col, flags, rnd):
+    """The identity of an untouched design space graph does not depend on what was derived or decoded from it in the
+    meantime: fingerprint unchanged, an earlier pickle and a later pickle are both the same design space as the graph
+    and as a fresh build of the description."""
+    from adsg_core.optimization.graph_processor import GraphProcessor
+    g = b.dsg
+    try:
+        f0, p0 = g.fingerprint(), pickle.dumps(g)
+    except Exception:  # noqa  (judged by the round-trip part)
+        return
+    steps = []
+    try:
+        cur = g
+        for _ in range(6):   # a random walk over the selection choices: derived graphs with fewer nodes
+            chs = cur.get_ordered_next_choice_nodes()
+            chs = [c for c in chs if type(c).__name__ == 'SelectionChoiceNode']
+            if not chs:
+                break
+            c = chs[0]
+            opts = cur.get_option_nodes(c)
+            if not opts:
+                break
+            cur = cur.get_for_apply_selection_choice(c, rnd.choice(opts))
+            _ = cur.feasible
+            steps.append('apply')
+        gp = GraphProcessor(g)
+        vecs, _ = D.declared_space(gp, 6, rnd)
+        for x in vecs:
+            gi, _x, _a = gp.get_graph(x)
+            _ = gi.feasible
+            steps.append('decode')
+    except Exception:  # noqa  (decoding itself is judged elsewhere)
+        col.count('history_stability_ops_failed')
+    if not steps:
+        return
+    col.count('monitor_history_stability_evaluations')
+    try:
+        f1 = g.fingerprint()
+        early, late = pickle.loads(p0), pickle.loads(pickle.dumps(g))
+        fresh = B.build(sp).dsg
+        bad = {}
+        if f1 != f0:
+            bad['fingerprint_changed'] = True
+        if not early.is_same(g):
+            bad['earlier_pickle_not_same_as_graph'] = True
+        if fresh is not None and not late.is_same(fresh):
+            bad['later_pickle_not_same_as_fresh_build'] = True
+        if fresh is not None and not g.is_same(fresh):
+            bad['graph_not_same_as_fresh_build'] = True
+        if bad:
+            col.violation('identity_depends_on_history', sp, dict(bad, steps=steps), flags)
+    except Exception as e:  # noqa
+        info = D.exc_info(e)
+        col.violation('pickle_exception', sp, {'exc': info, 'stage': 'history'}, flags,
+                      where={'exc': info['type'], 'site': info['site']})
 
 
 def _structure(sp):
